@@ -1,11 +1,15 @@
 import GtirbProofs.Lemmas.ForestDefs
 /-! Lemmas for property C03 (the per-IR UUID table equals the scan).
 
-Part A: theory of the back-pointer chains (`irOf`, descendants).
-Part B: the list of nodes that `cacheAdd/cacheRemove` walk = the descendants.
-Part C: `cacheAdd*` / `cacheDel*` as one fold of `cacheSet` / `cacheDel` over that list.
-Part D: the two core theorems (detach a subtree / attach a subtree).
-Part E: primitives and composite operations. -/
+Part A: theory of the back-pointer chains (`irOf`, descendants `CacheDesc`).
+Part C: `cacheAdd*` / `cacheDel*` as one fold of `cacheSet` / `cacheDel` over the walked list.
+Part B: the list of nodes that `cacheAdd/cacheRemove` walk = the descendants (under `ForestInv`).
+Part D: the two core theorems (detach a subtree / attach a subtree), purely about back-pointers.
+Part E: primitives (`setDiscard`, `setAdd`), each with the preserved `ForestInv` of the result.
+Part F: folds (`cache_DistinctFold`: distinctness at the moments inside a loop), `blkUpdate`,
+        the module list, allocation, constructors.
+Part M: the public operations (`cache_step_good`), `DistinctFine`, `DistinctAlongFine`.
+All names carry the prefix `cache`/`Cache`. -/
 namespace Gtirb.Forest
 
 /-! ## Part A: back-pointer chains -/
@@ -2632,5 +2636,577 @@ theorem cache_setParent_ok {g : G} (hf : ForestInv g) (hc : CacheInv g) (hd : Di
       obtain ⟨g1, h1, hdet, hf1⟩ := cache_setDiscard_ok hf hc hd hcn hkc hmem
       rw [h1]
       exact tail g1 hdet hf1
+
+/-! ### folds whose steps keep all invariants; constructor phases -/
+
+/-- result is fine: a state satisfying `P`, or an exception other than the `KeyError` of the table -/
+def CacheGood (r : Except Exc G) (P : G → Prop) : Prop :=
+  (∃ g', r = .ok g' ∧ P g') ∨ (∃ e, r = .error e ∧ e ≠ .cacheKeyError)
+
+theorem cache_foldE_inv {F : G → Nat → Except Exc G} (I : G → Prop) :
+    ∀ (L : List Nat) (g : G), (∀ g v, v ∈ L → I g → CacheGood (F g v) I) → I g →
+      CacheGood (foldE F L g) I
+  | [], g, _, hI => .inl ⟨g, rfl, hI⟩
+  | v :: L, g, hstep, hI => by
+    rcases hstep g v List.mem_cons_self hI with ⟨g1, h1, hI1⟩ | ⟨e, he, hne⟩
+    · have := cache_foldE_inv I L g1 (fun g x hx => hstep g x (List.mem_cons_of_mem _ hx)) hI1
+      simp only [foldE, h1]; exact this
+    · exact .inr ⟨e, by simp only [foldE, he], hne⟩
+
+/-- everything the invariants need, relative to a reference state for `n`, `kind`, `uuid` -/
+structure CacheAll (g0 g : G) : Prop where
+  forest : ForestInv g
+  cacheInv : CacheInv g
+  distinct : Distinct g
+  n : g.n = g0.n
+  kind : g.kind = g0.kind
+  uuid : g.uuid = g0.uuid
+
+theorem cache_setDiscard_any {g0 g : G} (h : CacheAll g0 g) {p v : Nat} {s : Slot} (hv : v < g0.n)
+    (hkv : g0.kind v ≠ .ir) : ∃ g', setDiscard g p s v = .ok g' ∧ CacheAll g0 g' := by
+  by_cases hm : v ∈ g.kids p s
+  · obtain ⟨g', h1, hdet, hf'⟩ := cache_setDiscard_ok h.forest h.cacheInv h.distinct (by rw [h.n]; exact hv)
+      (by rw [h.kind]; exact hkv) hm
+    exact ⟨g', h1, hf', hdet.cacheInv, hdet.distinct, hdet.n.trans h.n, hdet.kind.trans h.kind,
+      hdet.uuid.trans h.uuid⟩
+  · exact ⟨g, by unfold setDiscard; rw [if_neg hm], h⟩
+
+theorem cache_foldE_setDiscard {g0 g : G} (h : CacheAll g0 g) {p : Nat} {s : Slot} {L : List Nat}
+    (hL : ∀ v, v ∈ L → v < g0.n ∧ g0.kind v ≠ .ir) :
+    CacheGood (foldE (fun g v => setDiscard g p s v) L g) (CacheAll g0) := by
+  apply cache_foldE_inv (CacheAll g0) L g _ h
+  intro gk v hv hk
+  obtain ⟨g', h1, h2⟩ := cache_setDiscard_any hk (p := p) (s := s) (hL v hv).1 (hL v hv).2
+  exact .inl ⟨g', h1, h2⟩
+
+/-- invariants while children are attached below a node `t` that belongs to no IR -/
+structure CacheDT (g0 : G) (t : Nat) (g : G) : Prop extends CacheAll g0 g where
+  part : g.par t = none
+  kt : g0.kind t ≠ .ir
+  tn : t < g0.n
+
+theorem CacheDT.irOf_t {g0 g : G} {t : Nat} (h : CacheDT g0 t g) : irOf g t = none := by
+  rw [cache_irOf_root h.part, if_neg (by rw [h.kind]; exact h.kt)]
+
+theorem cache_ne_of_parentKind {g : G} {x t : Nat} (h : parentKind (g.kind x) = some (g.kind t)) : x ≠ t := by
+  intro e; subst e; have := cache_rank_parentKind h; omega
+
+theorem cache_DT_setAdd {g0 g : G} {t x : Nat} {s : Slot} (h : CacheDT g0 t g) (hx : x < g0.n)
+    (hs : slotOf (g0.kind x) = some s) (hkp : parentKind (g0.kind x) = some (g0.kind t)) :
+    ∃ g', setAdd g t s x = .ok g' ∧ CacheDT g0 t g' := by
+  obtain ⟨g', h1, hA, hf', hc'⟩ := cache_setAdd_ok h.forest h.cacheInv h.distinct (p := t) (v := x) (s := s)
+    (by rw [h.n]; exact hx) (by rw [h.n]; exact h.tn) (by rw [h.kind]; exact hs) (by rw [h.kind]; exact hkp)
+  have hpt : g'.par t = none := by rw [hA.par t (cache_ne_of_parentKind hkp).symm]; exact h.part
+  have hirt : irOf g' t = none := by
+    rw [cache_irOf_root hpt, if_neg (by rw [hA.kind, h.kind]; exact h.kt)]
+  have hd' : Distinct g' := cache_distinct_to_detached h.forest.cache_parInv hf'.cache_parInv hA.n hA.kind
+    hA.uuid hA.par_cases hirt h.distinct
+  exact ⟨g', h1, ⟨hf', hc' hd', hd', hA.n.trans h.n, hA.kind.trans h.kind, hA.uuid.trans h.uuid⟩, hpt,
+    h.kt, h.tn⟩
+
+theorem cache_DT_foldE_setAdd {g0 : G} {t : Nat} {s : Slot} : ∀ (L : List Nat) (g : G), CacheDT g0 t g →
+    (∀ x, x ∈ L → x < g0.n ∧ slotOf (g0.kind x) = some s ∧ parentKind (g0.kind x) = some (g0.kind t)) →
+    ∃ g', foldE (fun g x => setAdd g t s x) L g = .ok g' ∧ CacheDT g0 t g'
+  | [], g, h, _ => ⟨g, rfl, h⟩
+  | x :: L, g, h, hL => by
+    obtain ⟨hx, hs, hkp⟩ := hL x List.mem_cons_self
+    obtain ⟨g1, h1, hdt1⟩ := cache_DT_setAdd h hx hs hkp
+    obtain ⟨g', h', hdt'⟩ := cache_DT_foldE_setAdd L g1 hdt1 (fun y hy => hL y (List.mem_cons_of_mem _ hy))
+    exact ⟨g', by simp only [foldE, h1, h'], hdt'⟩
+
+theorem cache_distinctFold_of_pres' {F : G → Nat → Except Exc G} (P : G → Prop) :
+    ∀ (L : List Nat) (g : G),
+      (∀ g v g1, v ∈ L → P g → Distinct g → F g v = .ok g1 → P g1 ∧ Distinct g1) →
+      P g → Distinct g → cache_DistinctFold F g L
+  | [], _, _, _, _ => trivial
+  | v :: L, g, hstep, hP, hd => by
+    refine ⟨hd, ?_⟩
+    cases h1 : F g v with
+    | error e => trivial
+    | ok g1 =>
+      obtain ⟨hP1, hd1⟩ := hstep g v g1 List.mem_cons_self hP hd h1
+      exact cache_distinctFold_of_pres' P L g1
+        (fun g x g2 hx => hstep g x g2 (List.mem_cons_of_mem _ hx)) hP1 hd1
+
+theorem cache_DT_blkUpdate {g0 g : G} {t : Nat} {vs : List Nat} (h : CacheDT g0 t g)
+    (hvs : ∀ x, x ∈ vs → x < g0.n ∧ slotOf (g0.kind x) = some .blocks ∧
+      parentKind (g0.kind x) = some (g0.kind t)) :
+    ∃ g', blkUpdate g t vs = .ok g' ∧ CacheDT g0 t g' := by
+  have hdf : cache_DistinctFold (cache_blkStep (irOf g t) t) g (cache_blkNew g t vs) := by
+    apply cache_distinctFold_of_pres'
+      (fun gk => CacheParInv gk ∧ gk.n = g0.n ∧ gk.kind = g0.kind ∧ gk.par t = none) _ g _
+      ⟨h.forest.cache_parInv, h.n, h.kind, h.part⟩ h.distinct
+    rintro gk x g1 hx ⟨hpk, hnk, hkk, hptk⟩ hdk h1
+    have hA := cache_blkStep_shape h1
+    obtain ⟨hxn, _, hkp⟩ := hvs x (cache_mem_blkNew.1 hx).1
+    have hp1 : CacheParInv g1 := cache_parInv_attach hpk (by rw [hnk]; exact hxn) (by rw [hnk]; exact h.tn)
+      (by rw [hkk]; exact hkp) hA.n hA.kind hA.parv hA.par
+    have hpt1 : g1.par t = none := by rw [hA.par t (cache_ne_of_parentKind hkp).symm]; exact hptk
+    have hirt : irOf g1 t = none := by
+      rw [cache_irOf_root hpt1, if_neg (by rw [hA.kind, hkk]; exact h.kt)]
+    exact ⟨⟨hp1, hA.n.trans hnk, hA.kind.trans hkk, hpt1⟩,
+      cache_distinct_to_detached hpk hp1 hA.n hA.kind hA.uuid hA.par_cases hirt hdk⟩
+  obtain ⟨g', h1, h2, h3, h4, h5, h6, h7⟩ := cache_blkUpdate_ok h.forest h.cacheInv (p := t) (vs := vs)
+    (by rw [h.n]; exact h.tn)
+    (by intro x hx; obtain ⟨a, b, c⟩ := hvs x hx; rw [h.n, h.kind]; exact ⟨a, b, c⟩) hdf
+  have htnew : t ∉ cache_blkNew g t vs := by
+    intro ht
+    have := (hvs t (cache_mem_blkNew.1 ht).1).2.2
+    exact cache_ne_of_parentKind this rfl
+  have hpt : g'.par t = none := by rw [h5, if_neg htnew]; exact h.part
+  have hirt : irOf g' t = none := by
+    rw [cache_irOf_root hpt, if_neg (by rw [h3, h.kind]; exact h.kt)]
+  have hd' : Distinct g' := cache_distinct_to_detached h.forest.cache_parInv h6.cache_parInv h2 h3 h4
+    (by intro y; rw [h5]; split
+        · exact .inr rfl
+        · exact .inl rfl) hirt h.distinct
+  exact ⟨g', h1, ⟨h6, h7 hd', hd', h2.trans h.n, h3.trans h.kind, h4.trans h.uuid⟩, hpt, h.kt, h.tn⟩
+
+/-- the children phase of a constructor -/
+theorem cache_DT_children {g0 : G} {t : Nat} : ∀ (kids : List (Slot × List Nat)) (g : G), CacheDT g0 t g →
+    (∀ sv, sv ∈ kids → ∀ x, x ∈ sv.2 → x < g0.n ∧ slotOf (g0.kind x) = some sv.1 ∧
+      parentKind (g0.kind x) = some (g0.kind t)) →
+    ∃ g', kids.foldl (fun acc (sv : Slot × List Nat) =>
+             bindE acc fun g =>
+               if sv.1 = .blocks then blkUpdate g t sv.2
+               else foldE (fun g x => setAdd g t sv.1 x) sv.2 g) (.ok g) = .ok g' ∧ CacheDT g0 t g'
+  | [], g, h, _ => ⟨g, rfl, h⟩
+  | (s, vs) :: kids, g, h, hk => by
+    have hsv := hk (s, vs) List.mem_cons_self
+    have : ∃ g1, (bindE (.ok g) fun g => if s = .blocks then blkUpdate g t vs
+        else foldE (fun g x => setAdd g t s x) vs g) = .ok g1 ∧ CacheDT g0 t g1 := by
+      show ∃ g1, (if s = .blocks then blkUpdate g t vs
+        else foldE (fun g x => setAdd g t s x) vs g) = .ok g1 ∧ CacheDT g0 t g1
+      by_cases hs : s = .blocks
+      · rw [if_pos hs]
+        exact cache_DT_blkUpdate h (fun x hx => by have := hsv x hx; rw [hs] at this; exact this)
+      · rw [if_neg hs]
+        exact cache_DT_foldE_setAdd vs g h hsv
+    obtain ⟨g1, h1, hdt1⟩ := this
+    obtain ⟨g', h', hdt'⟩ := cache_DT_children kids g1 hdt1 (fun sv hsv => hk sv (List.mem_cons_of_mem _ hsv))
+    refine ⟨g', ?_, hdt'⟩
+    rw [List.foldl_cons, h1]; exact h'
+
+/-! ## Part M: the public operations -/
+
+/-- one step of `__ixor__` -/
+def cache_ixorStep (p : Nat) (s : Slot) (g : G) (v : Nat) : Except Exc G :=
+  if v ∈ g.kids p s then setDiscard g p s v else nodeSetAdd g p s v
+
+/-- the hypothesis of C03 at the moments *inside* the operations that attach several nodes one after
+the other (`update`/`|=`, `extend`/`+=`, `^=`): UUIDs are pairwise distinct per IR in every state
+from which a step of the loop starts. `True` for every other operation. -/
+def DistinctFine (g : G) : Op → Prop
+  | .update p s vs =>
+    if s = .blocks then cache_DistinctFold (cache_blkStep (irOf g p) p) g (cache_blkNew g p vs)
+    else cache_DistinctFold (fun g v => setAdd g p s v) g vs
+  | .ixor p s vs => cache_DistinctFold (cache_ixorStep p s) g vs
+  | .extend i vs => cache_DistinctFold (fun g v => modAppend g i v) g vs
+  | _ => True
+
+theorem CacheGood.mono {r : Except Exc G} {P Q : G → Prop} (h : CacheGood r P) (hPQ : ∀ g, P g → Q g) :
+    CacheGood r Q := by
+  rcases h with ⟨g', h1, h2⟩ | h
+  · exact .inl ⟨g', h1, hPQ g' h2⟩
+  · exact .inr h
+
+theorem CacheAll.rfl' {g : G} (hf : ForestInv g) (hc : CacheInv g) (hd : Distinct g) : CacheAll g g :=
+  ⟨hf, hc, hd, rfl, rfl, rfl⟩
+
+theorem cache_childOK_kind {g : G} {p v : Nat} {s : Slot} (h : ChildOK g p s v) : g.kind v ≠ .ir := by
+  intro e; have := h.2.2.1; rw [e] at this; cases this
+
+abbrev CacheGoal (g : G) (op : Op) : Prop := CacheGood (step g op) (fun g' => Distinct g' → CacheInv g')
+
+theorem cache_step_discard {g : G} (hf : ForestInv g) (hc : CacheInv g) (hd : Distinct g) {p v : Nat}
+    {s : Slot} (hop : OpOK g (.discard p s v)) : CacheGoal g (.discard p s v) := by
+  obtain ⟨g', h1, h2⟩ := cache_setDiscard_any (CacheAll.rfl' hf hc hd) (p := p) (s := s) hop.2.2.1
+    (cache_childOK_kind hop.2)
+  exact .inl ⟨g', h1, fun _ => h2.cacheInv⟩
+
+theorem cache_step_remove {g : G} (hf : ForestInv g) (hc : CacheInv g) (hd : Distinct g) {p v : Nat}
+    {s : Slot} (hop : OpOK g (.remove p s v)) : CacheGoal g (.remove p s v) := by
+  show CacheGood (if v ∈ g.kids p s then setDiscard g p s v else .error .keyError) _
+  split
+  · exact cache_step_discard hf hc hd hop
+  · exact .inr ⟨_, rfl, by decide⟩
+
+theorem cache_step_pop {g : G} (hf : ForestInv g) (hc : CacheInv g) (hd : Distinct g) {p v : Nat}
+    {s : Slot} (hop : OpOK g (.pop p s v)) : CacheGoal g (.pop p s v) := by
+  show CacheGood (if (g.kids p s).isEmpty then .error .keyError
+    else if v ∈ g.kids p s then setDiscard g p s v else .error .badOp) _
+  split
+  · exact .inr ⟨_, rfl, by decide⟩
+  · split
+    · exact cache_step_discard hf hc hd hop
+    · exact .inr ⟨_, rfl, by decide⟩
+
+theorem cache_step_discards {g : G} (hf : ForestInv g) (hc : CacheInv g) (hd : Distinct g) {p : Nat}
+    {s : Slot} {L : List Nat} (hL : ∀ v, v ∈ L → ChildOK g p s v) :
+    CacheGood (foldE (fun g v => setDiscard g p s v) L g) (fun g' => Distinct g' → CacheInv g') :=
+  (cache_foldE_setDiscard (CacheAll.rfl' hf hc hd) (p := p) (s := s) (L := L)
+    (fun v hv => ⟨(hL v hv).2.1, cache_childOK_kind (hL v hv)⟩)).mono (fun _ h _ => h.cacheInv)
+
+theorem cache_step_clear {g : G} (hf : ForestInv g) (hc : CacheInv g) (hd : Distinct g) {p : Nat}
+    {s : Slot} {order : List Nat} (hop : OpOK g (.clear p s order)) : CacheGoal g (.clear p s order) := by
+  show CacheGood (if sameMembers order (g.kids p s) then foldE (fun g v => setDiscard g p s v) order g
+    else .error .badOp) _
+  split
+  · exact cache_step_discards hf hc hd hop.2.2
+  · exact .inr ⟨_, rfl, by decide⟩
+
+theorem cache_step_isub {g : G} (hf : ForestInv g) (hc : CacheInv g) (hd : Distinct g) {p : Nat}
+    {s : Slot} {vs : List Nat} (hop : OpOK g (.isub p s vs)) : CacheGoal g (.isub p s vs) :=
+  cache_step_discards hf hc hd hop.2.2
+
+theorem cache_step_iand {g : G} (hf : ForestInv g) (hc : CacheInv g) (hd : Distinct g) {p : Nat}
+    {s : Slot} {vs order : List Nat} (hop : OpOK g (.iand p s vs order)) : CacheGoal g (.iand p s vs order) := by
+  show CacheGood (if sameMembers order ((g.kids p s).filter (fun x => !(x ∈ vs)))
+    then foldE (fun g v => setDiscard g p s v) order g else .error .badOp) _
+  split
+  · exact cache_step_discards hf hc hd hop.2.2.2
+  · exact .inr ⟨_, rfl, by decide⟩
+
+theorem cache_step_add {g : G} (hf : ForestInv g) (hc : CacheInv g) (hd : Distinct g) {p v : Nat}
+    {s : Slot} (hop : OpOK g (.add p s v)) : CacheGoal g (.add p s v) := by
+  obtain ⟨g', h1, _, _, _, _, _, h7⟩ := cache_nodeSetAdd_ok hf hc hd (p := p) (v := v) (s := s) hop.2.2.1
+    hop.2.1 hop.2.2.2.1 hop.2.2.2.2
+  exact .inl ⟨g', h1, h7⟩
+
+theorem cache_step_setParent {g : G} (hf : ForestInv g) (hc : CacheInv g) (hd : Distinct g) {c : Nat}
+    {p : Option Nat} (hop : OpOK g (.setParent c p)) : CacheGoal g (.setParent c p) := by
+  obtain ⟨g', h1, _, _, _, _, h6⟩ := cache_setParent_ok hf hc hd (c := c) (p := p) hop.1 hop.2.1 hop.2.2
+  exact .inl ⟨g', h1, h6⟩
+
+theorem cache_step_update {g : G} (hf : ForestInv g) (hc : CacheInv g) {p : Nat}
+    {s : Slot} {vs : List Nat} (hop : OpOK g (.update p s vs)) (hfine : DistinctFine g (.update p s vs)) :
+    CacheGoal g (.update p s vs) := by
+  show CacheGood (if s = .blocks then blkUpdate g p vs else foldE (fun g v => setAdd g p s v) vs g) _
+  have hfine' : if s = .blocks then cache_DistinctFold (cache_blkStep (irOf g p) p) g (cache_blkNew g p vs)
+    else cache_DistinctFold (fun g v => setAdd g p s v) g vs := hfine
+  by_cases hs : s = .blocks
+  · rw [if_pos hs] at hfine' ⊢
+    obtain ⟨g', h1, _, _, _, _, _, h7⟩ := cache_blkUpdate_ok hf hc (p := p) (vs := vs) hop.2.1
+      (fun v hv => by have := hop.2.2 v hv; rw [hs] at this; exact ⟨this.2.1, this.2.2.1, this.2.2.2⟩) hfine'
+    exact .inl ⟨g', h1, h7⟩
+  · rw [if_neg hs] at hfine' ⊢
+    obtain ⟨g', h1, _, h3⟩ := cache_foldE_good (F := fun g v => setAdd g p s v)
+      (fun R gk => ForestInv gk ∧ gk.n = g.n ∧ gk.kind = g.kind ∧ ∀ v, v ∈ R → ChildOK g p s v)
+      (by
+        rintro gk v R ⟨hfk, hnk, hkk, hR⟩ hdk hck
+        have hv := hR v List.mem_cons_self
+        obtain ⟨g1, h1, hA, hf1, hc1⟩ := cache_setAdd_ok hfk hck hdk (p := p) (v := v) (s := s)
+          (by rw [hnk]; exact hv.2.1) (by rw [hnk]; exact hv.1) (by rw [hkk]; exact hv.2.2.1)
+          (by rw [hkk]; exact hv.2.2.2)
+        exact ⟨g1, h1, ⟨hf1, hA.n.trans hnk, hA.kind.trans hkk,
+          fun x hx => hR x (List.mem_cons_of_mem _ hx)⟩, hc1⟩)
+      vs g ⟨hf, rfl, rfl, hop.2.2⟩ (fun _ => hc) hfine'
+    exact .inl ⟨g', h1, h3⟩
+
+theorem cache_step_ixor {g : G} (hf : ForestInv g) (hc : CacheInv g) {p : Nat}
+    {s : Slot} {vs : List Nat} (hop : OpOK g (.ixor p s vs)) (hfine : DistinctFine g (.ixor p s vs)) :
+    CacheGoal g (.ixor p s vs) := by
+  show CacheGood (foldE (cache_ixorStep p s) vs g) _
+  obtain ⟨g', h1, _, h3⟩ := cache_foldE_good (F := cache_ixorStep p s)
+    (fun R gk => ForestInv gk ∧ gk.n = g.n ∧ gk.kind = g.kind ∧ ∀ v, v ∈ R → ChildOK g p s v)
+    (by
+      rintro gk v R ⟨hfk, hnk, hkk, hR⟩ hdk hck
+      have hv := hR v List.mem_cons_self
+      have hRR : ∀ x, x ∈ R → ChildOK g p s x := fun x hx => hR x (List.mem_cons_of_mem _ hx)
+      unfold cache_ixorStep
+      by_cases hm : v ∈ gk.kids p s
+      · rw [if_pos hm]
+        obtain ⟨g1, h1, hdet, hf1⟩ := cache_setDiscard_ok hfk hck hdk (by rw [hnk]; exact hv.2.1)
+          (by rw [hkk]; exact cache_childOK_kind hv) hm
+        exact ⟨g1, h1, ⟨hf1, hdet.n.trans hnk, hdet.kind.trans hkk, hRR⟩, fun _ => hdet.cacheInv⟩
+      · rw [if_neg hm]
+        obtain ⟨g1, h1, h2, h3, _, _, h6, h7⟩ := cache_nodeSetAdd_ok hfk hck hdk (p := p) (v := v) (s := s)
+          (by rw [hnk]; exact hv.2.1) (by rw [hnk]; exact hv.1) (by rw [hkk]; exact hv.2.2.1)
+          (by rw [hkk]; exact hv.2.2.2)
+        exact ⟨g1, h1, ⟨h6, h2.trans hnk, h3.trans hkk, hRR⟩, h7⟩)
+    vs g ⟨hf, rfl, rfl, hop.2.2⟩ (fun _ => hc) hfine
+  exact .inl ⟨g', h1, h3⟩
+
+theorem cache_childOK_mods {g : G} {i v : Nat} (h : ChildOK g i .mods v) :
+    v < g.n ∧ i < g.n ∧ g.kind v = .module ∧ g.kind i = .ir := by
+  have hk := cache_slot_mods h.2.2.1
+  have := h.2.2.2
+  rw [hk] at this
+  exact ⟨h.2.1, h.1, hk, cache_parent_of_module this⟩
+
+theorem cache_step_extend {g : G} (hf : ForestInv g) (hc : CacheInv g) {i : Nat}
+    {vs : List Nat} (hop : OpOK g (.extend i vs)) (hfine : DistinctFine g (.extend i vs)) :
+    CacheGoal g (.extend i vs) := by
+  show CacheGood (foldE (fun g v => modAppend g i v) vs g) _
+  obtain ⟨g', h1, _, h3⟩ := cache_foldE_good (F := fun g v => modAppend g i v)
+    (fun R gk => ForestInv gk ∧ gk.n = g.n ∧ gk.kind = g.kind ∧ ∀ v, v ∈ R → ChildOK g i .mods v)
+    (by
+      rintro gk v R ⟨hfk, hnk, hkk, hR⟩ hdk hck
+      obtain ⟨a, b, c, d⟩ := cache_childOK_mods (hR v List.mem_cons_self)
+      obtain ⟨g1, h1, hA, hf1, hc1⟩ := cache_modAppend_ok hfk hck hdk (i := i) (v := v)
+        (by rw [hnk]; exact a) (by rw [hnk]; exact b) (by rw [hkk]; exact c) (by rw [hkk]; exact d)
+      exact ⟨g1, h1, ⟨hf1, hA.n.trans hnk, hA.kind.trans hkk,
+        fun x hx => hR x (List.mem_cons_of_mem _ hx)⟩, hc1⟩)
+    vs g ⟨hf, rfl, rfl, hop.2.2⟩ (fun _ => hc) hfine
+  exact .inl ⟨g', h1, h3⟩
+
+theorem cache_step_insert {g : G} (hf : ForestInv g) (hc : CacheInv g) (hd : Distinct g) {i v : Nat}
+    {k : Int} (hop : ChildOK g i .mods v) : CacheGoal g (.insert i k v) := by
+  obtain ⟨a, b, c, d⟩ := cache_childOK_mods hop
+  obtain ⟨g', h1, _, _, h3⟩ := cache_modInsert_ok hf hc hd (k := k) a b c d
+  exact .inl ⟨g', h1, h3⟩
+
+theorem cache_step_append {g : G} (hf : ForestInv g) (hc : CacheInv g) (hd : Distinct g) {i v : Nat}
+    (hop : ChildOK g i .mods v) : CacheGoal g (.append i v) := by
+  obtain ⟨a, b, c, d⟩ := cache_childOK_mods hop
+  obtain ⟨g', h1, _, _, h3⟩ := cache_modAppend_ok hf hc hd a b c d
+  exact .inl ⟨g', h1, h3⟩
+
+theorem cache_modDelItem_all {g0 g : G} (h : CacheAll g0 g) (i : Nat) (k : Int) :
+    CacheGood (modDelItem g i k) (CacheAll g0) := by
+  rcases cache_modDelItem_ok h.forest h.cacheInv h.distinct (i := i) (k := k) with
+    ⟨g', v, h1, _, hdet, hf', _⟩ | h1
+  · exact .inl ⟨g', h1, hf', hdet.cacheInv, hdet.distinct, hdet.n.trans h.n, hdet.kind.trans h.kind,
+      hdet.uuid.trans h.uuid⟩
+  · exact .inr ⟨_, h1, by decide⟩
+
+theorem cache_step_delItem {g : G} (hf : ForestInv g) (hc : CacheInv g) (hd : Distinct g) {i : Nat}
+    {k : Int} : CacheGoal g (.delItem i k) :=
+  (cache_modDelItem_all (CacheAll.rfl' hf hc hd) i k).mono (fun _ h _ => h.cacheInv)
+
+theorem cache_step_listPop {g : G} (hf : ForestInv g) (hc : CacheInv g) (hd : Distinct g) {i : Nat}
+    {k : Int} : CacheGoal g (.listPop i k) := by
+  show CacheGood (match pyIndex (g.kids i .mods).length k with
+    | none => .error .indexError
+    | some _ => modDelItem g i k) _
+  split
+  · exact .inr ⟨_, rfl, by decide⟩
+  · exact cache_step_delItem hf hc hd
+
+theorem cache_step_listRemove {g : G} (hf : ForestInv g) (hc : CacheInv g) (hd : Distinct g) {i v : Nat} :
+    CacheGoal g (.listRemove i v) := by
+  show CacheGood (modListRemove g i v) _
+  by_cases hm : v ∈ g.kids i .mods
+  · obtain ⟨g', h1, hdet, _⟩ := cache_modListRemove_ok hf hc hd hm
+    exact .inl ⟨g', h1, fun _ => hdet.cacheInv⟩
+  · exact .inr ⟨.valueError, by unfold modListRemove; rw [if_neg hm], by decide⟩
+
+theorem cache_step_setItem {g : G} (hf : ForestInv g) (hc : CacheInv g) (hd : Distinct g) {i v : Nat}
+    {k : Int} (hop : ChildOK g i .mods v) : CacheGoal g (.setItem i k v) := by
+  obtain ⟨a, b, c, d⟩ := cache_childOK_mods hop
+  exact cache_modSetItem_good hf hc hd a b c d
+
+theorem cache_step_listClear {g : G} (hf : ForestInv g) (hc : CacheInv g) (hd : Distinct g) {i : Nat} :
+    CacheGoal g (.listClear i) := by
+  show CacheGood (foldE (fun g _ => modDelItem g i (-1)) (g.kids i .mods) g) _
+  exact (cache_foldE_inv (CacheAll g) _ g (fun gk _ _ hk => cache_modDelItem_all hk i (-1))
+    (CacheAll.rfl' hf hc hd)).mono (fun _ h _ => h.cacheInv)
+
+theorem cache_step_reverse {g : G} (hc : CacheInv g) {i : Nat} : CacheGoal g (.reverse i) :=
+  .inl ⟨modReverse g i, rfl, fun _ => cache_cacheInv_congr (g := g) rfl rfl rfl rfl rfl hc⟩
+
+theorem cache_step_mkIR {g : G} (hf : ForestInv g) (hc : CacheInv g) {u : Nat} : CacheGoal g (.mkIR u) :=
+  .inl ⟨mkIR g u, rfl, fun _ => cache_mkIR_cacheInv hf hc u⟩
+
+theorem cache_step_setName {g : G} (hc : CacheInv g) {v nm : Nat} : CacheGoal g (.setName v nm) :=
+  .inl ⟨setName g v nm, rfl, fun _ => (cache_setName_same g v nm).cacheInv hc⟩
+
+theorem cache_step_setPayload {g : G} (hc : CacheInv g) {v : Nat} {pl : Payload} :
+    CacheGoal g (.setPayload v pl) :=
+  .inl ⟨setPayload g v pl, rfl, fun _ => (cache_setPayload_same g v pl).cacheInv hc⟩
+
+theorem cache_alloc_all {g : G} (hf : ForestInv g) (hc : CacheInv g) (hd : Distinct g) {k : Kind}
+    (hk : k ≠ .ir) (u : Nat) : CacheAll (alloc g k u).1 (alloc g k u).1 :=
+  CacheAll.rfl' (cache_alloc_forest hf k u) (cache_alloc_cacheInv hf hc hk u) (cache_alloc_distinct hf hd k u)
+
+theorem cache_alloc_kind_old (g : G) (k : Kind) (u : Nat) {x : Nat} (hx : x < g.n) :
+    (alloc g k u).1.kind x = g.kind x := by
+  show (if x = g.n then k else g.kind x) = _; rw [if_neg (by omega)]
+
+theorem cache_alloc_kind_new (g : G) (k : Kind) (u : Nat) : (alloc g k u).1.kind g.n = k := by
+  show (if g.n = g.n then k else g.kind g.n) = _; simp
+
+theorem cache_step_mkSym {g : G} (hf : ForestInv g) (hc : CacheInv g) (hd : Distinct g) {u nm : Nat}
+    {pl : Payload} {parent : Option Nat} (hop : OpOK g (.mkSym u nm pl parent)) :
+    CacheGoal g (.mkSym u nm pl parent) := by
+  have hall := cache_alloc_all hf hc hd (k := .symbol) (by decide) u
+  have hsame : CacheSame (alloc g .symbol u).1
+      { (alloc g .symbol u).1 with
+        name := fun x => if x = g.n then nm else (alloc g .symbol u).1.name x,
+        payload := fun x => if x = g.n then pl else (alloc g .symbol u).1.payload x } :=
+    ⟨rfl, rfl, rfl, rfl, rfl, rfl⟩
+  cases parent with
+  | none =>
+    show CacheGood (.ok { (alloc g .symbol u).1 with
+        name := fun x => if x = g.n then nm else (alloc g .symbol u).1.name x,
+        payload := fun x => if x = g.n then pl else (alloc g .symbol u).1.payload x }) _
+    exact .inl ⟨_, rfl, fun _ => hsame.cacheInv hall.cacheInv⟩
+  | some p =>
+    show CacheGood (setParent { (alloc g .symbol u).1 with
+        name := fun x => if x = g.n then nm else (alloc g .symbol u).1.name x,
+        payload := fun x => if x = g.n then pl else (alloc g .symbol u).1.payload x } g.n (some p)) _
+    obtain ⟨hpn, hkp⟩ := hop.2 p rfl
+    obtain ⟨g', h1, _, _, _, _, h6⟩ := cache_setParent_ok (hsame.forest hall.forest)
+      (hsame.cacheInv hall.cacheInv) (hsame.distinct hall.distinct) (c := g.n) (p := some p)
+      (show g.n < g.n + 1 by omega)
+      (by show (alloc g .symbol u).1.kind g.n ≠ .ir; rw [cache_alloc_kind_new]; decide)
+      (by
+        intro q hq; cases hq
+        refine ⟨show p < g.n + 1 by omega, ?_⟩
+        show parentKind ((alloc g .symbol u).1.kind g.n) = some ((alloc g .symbol u).1.kind p)
+        rw [cache_alloc_kind_new, cache_alloc_kind_old g _ u hpn, hkp]; rfl)
+    exact .inl ⟨g', h1, h6⟩
+
+theorem cache_step_mk {g : G} (hf : ForestInv g) (hc : CacheInv g) (hd : Distinct g) {k : Kind} {u : Nat}
+    {kids : List (Slot × List Nat)} {parent : Option Nat} (hop : OpOK g (.mk k u kids parent)) :
+    CacheGoal g (.mk k u kids parent) := by
+  obtain ⟨hk1, hk2, hkids, hpar⟩ := hop
+  have hall := cache_alloc_all hf hc hd hk1 u
+  have hdt : CacheDT (alloc g k u).1 g.n (alloc g k u).1 :=
+    ⟨hall, by show (if g.n = g.n then none else g.par g.n) = none; simp,
+     by rw [cache_alloc_kind_new]; exact hk1, show g.n < g.n + 1 by omega⟩
+  obtain ⟨g2, h2, hdt2⟩ := cache_DT_children kids (alloc g k u).1 hdt (by
+    intro sv hsv x hx
+    obtain ⟨a, b, c⟩ := hkids sv hsv x hx
+    refine ⟨show x < g.n + 1 by omega, ?_, ?_⟩
+    · rw [cache_alloc_kind_old g k u a]; exact b
+    · rw [cache_alloc_kind_old g k u a, cache_alloc_kind_new]; exact c)
+  have hkk : ¬ (k = .ir ∨ k = .symbol) := by intro h; rcases h with h | h; exact hk1 h; exact hk2 h
+  cases parent with
+  | none =>
+    show CacheGood (if k = .ir ∨ k = .symbol then .error .badOp else
+      bindE (kids.foldl (fun acc (sv : Slot × List Nat) =>
+               bindE acc fun g' =>
+                 if sv.1 = .blocks then blkUpdate g' g.n sv.2
+                 else foldE (fun g' x => setAdd g' g.n sv.1 x) sv.2 g') (.ok (alloc g k u).1))
+        fun g2 => .ok g2) _
+    rw [if_neg hkk, h2]
+    exact .inl ⟨g2, rfl, fun _ => hdt2.cacheInv⟩
+  | some p =>
+    show CacheGood (if k = .ir ∨ k = .symbol then .error .badOp else
+      bindE (kids.foldl (fun acc (sv : Slot × List Nat) =>
+               bindE acc fun g' =>
+                 if sv.1 = .blocks then blkUpdate g' g.n sv.2
+                 else foldE (fun g' x => setAdd g' g.n sv.1 x) sv.2 g') (.ok (alloc g k u).1))
+        fun g2 => setParent g2 g.n (some p)) _
+    rw [if_neg hkk, h2]
+    show CacheGood (setParent g2 g.n (some p)) _
+    obtain ⟨hpn, hkp⟩ := hpar p rfl
+    obtain ⟨g', h1, _, _, _, _, h6⟩ := cache_setParent_ok hdt2.forest hdt2.cacheInv hdt2.distinct
+      (c := g.n) (p := some p) (by rw [hdt2.n]; exact hdt2.tn) (by rw [hdt2.kind]; exact hdt2.kt)
+      (by
+        intro q hq; cases hq
+        refine ⟨by rw [hdt2.n]; show p < g.n + 1; omega, ?_⟩
+        rw [hdt2.kind, cache_alloc_kind_new, cache_alloc_kind_old g k u hpn]; exact hkp)
+    exact .inl ⟨g', h1, h6⟩
+
+/-- every public operation: no `KeyError` from the table, and the table stays exact -/
+theorem cache_step_good (g : G) (op : Op) (hf : ForestInv g) (hc : CacheInv g) (hd : Distinct g)
+    (hop : OpOK g op) (hfine : DistinctFine g op) : CacheGoal g op := by
+  cases op with
+  | mkIR u => exact cache_step_mkIR hf hc
+  | mk k u kids parent => exact cache_step_mk hf hc hd hop
+  | mkSym u nm pl parent => exact cache_step_mkSym hf hc hd hop
+  | setParent c p => exact cache_step_setParent hf hc hd hop
+  | add p s v => exact cache_step_add hf hc hd hop
+  | discard p s v => exact cache_step_discard hf hc hd hop
+  | remove p s v => exact cache_step_remove hf hc hd hop
+  | pop p s v => exact cache_step_pop hf hc hd hop
+  | clear p s order => exact cache_step_clear hf hc hd hop
+  | update p s vs => exact cache_step_update hf hc hop hfine
+  | isub p s vs => exact cache_step_isub hf hc hd hop
+  | iand p s vs order => exact cache_step_iand hf hc hd hop
+  | ixor p s vs => exact cache_step_ixor hf hc hop hfine
+  | insert i k v => exact cache_step_insert hf hc hd hop
+  | append i v => exact cache_step_append hf hc hd hop
+  | extend i vs => exact cache_step_extend hf hc hop hfine
+  | delItem i k => exact cache_step_delItem hf hc hd
+  | setItem i k v => exact cache_step_setItem hf hc hd hop
+  | listRemove i v => exact cache_step_listRemove hf hc hd
+  | listPop i k => exact cache_step_listPop hf hc hd
+  | reverse i => exact cache_step_reverse hc
+  | listClear i => exact cache_step_listClear hf hc hd
+  | setName v nm => exact cache_step_setName hc
+  | setPayload v pl => exact cache_step_setPayload hc
+
+/-- the operations for which distinctness before and after the operation is enough -/
+def cacheNotIxor : Op → Bool
+  | .ixor _ _ _ => false
+  | _ => true
+
+/-- the operations that perform at most one attach (their `DistinctFine` is `True`) -/
+def cacheSingleAttach : Op → Bool
+  | .ixor _ _ _ | .update _ _ _ | .extend _ _ => false
+  | _ => true
+
+theorem cache_distinctFine_single {g : G} {op : Op} (h : cacheSingleAttach op = true) : DistinctFine g op := by
+  cases op <;> first | trivial | (simp [cacheSingleAttach] at h)
+
+/-- for `update` and `extend` distinctness inside follows from distinctness before and after -/
+theorem cache_distinctFine_of_ends {g g' : G} {op : Op} (hf : ForestInv g) (hd : Distinct g)
+    (hd' : Distinct g') (hop : OpOK g op) (hs : step g op = .ok g') (hx : cacheNotIxor op = true) :
+    DistinctFine g op := by
+  have hp := hf.cache_parInv
+  cases op with
+  | ixor p s vs => simp [cacheNotIxor] at hx
+  | update p s vs =>
+    have hs' : (if s = .blocks then blkUpdate g p vs else foldE (fun g v => setAdd g p s v) vs g) = .ok g' := hs
+    show if s = .blocks then cache_DistinctFold (cache_blkStep (irOf g p) p) g (cache_blkNew g p vs)
+      else cache_DistinctFold (fun g v => setAdd g p s v) g vs
+    by_cases hsb : s = .blocks
+    · rw [if_pos hsb] at hs' ⊢
+      rw [cache_blkUpdate_eq] at hs'
+      cases hfold : foldE (cache_blkStep (irOf g p) p) (cache_blkNew g p vs) g with
+      | error e => rw [hfold] at hs'; cases hs'
+      | ok gf =>
+        rw [hfold] at hs'
+        cases hs'
+        obtain ⟨k1, k2, k3, k4, _, _⟩ := cache_foldl_kidsInsert p .blocks (cache_blkNew g p vs) gf
+        have hdf : Distinct gf := by
+          intro a b i ha hb hia hib hab
+          exact hd' a b i (by rw [k1]; exact ha) (by rw [k1]; exact hb)
+            (by rw [cache_irOf_congr k2 k4]; exact hia) (by rw [cache_irOf_congr k2 k4]; exact hib)
+            (by rw [k3]; exact hab)
+        exact cache_distinctFold_of_ends (g0 := g) (p := p) (fun _ _ _ h => cache_blkStep_shape h) _ g gf
+          ⟨rfl, rfl, rfl, hp, hop.2.1, fun v hv => by
+            have := hop.2.2 v (cache_mem_blkNew.1 hv).1
+            exact ⟨this.2.1, this.2.2.2⟩⟩ hfold hd hdf
+    · rw [if_neg hsb] at hs' ⊢
+      exact cache_distinctFold_of_ends (g0 := g) (p := p) (fun _ _ _ h => cache_setAdd_shape h) vs g g'
+        ⟨rfl, rfl, rfl, hp, hop.2.1, fun v hv => ⟨(hop.2.2 v hv).2.1, (hop.2.2 v hv).2.2.2⟩⟩ hs' hd hd'
+  | extend i vs =>
+    have hs' : foldE (fun g v => modAppend g i v) vs g = .ok g' := hs
+    exact cache_distinctFold_of_ends (g0 := g) (p := i) (fun _ _ _ h => cache_modAppend_shape h) vs g g'
+      ⟨rfl, rfl, rfl, hp, hop.1, fun v hv => ⟨(hop.2.2 v hv).2.1, (hop.2.2 v hv).2.2.2⟩⟩ hs' hd hd'
+  | _ => trivial
+
+/-- `DistinctAlong`, plus the intermediate moments of the multi-attach operations -/
+def DistinctAlongFine : G → List Op → Prop
+  | g, [] => Distinct g
+  | g, op :: ops => Distinct g ∧ DistinctFine g op ∧
+    DistinctAlongFine (match step g op with | .ok g' => g' | .error _ => g) ops
+
+/-- the other formulation of `cache_DistinctFold`: the UUIDs are distinct in the state reached after
+every proper prefix of the loop -/
+theorem cache_distinctFold_of_prefixes {F : G → Nat → Except Exc G} : ∀ (vs : List Nat) (g : G),
+    (∀ vs' gk, vs' <+: vs → vs' ≠ vs → foldE F vs' g = .ok gk → Distinct gk) → cache_DistinctFold F g vs
+  | [], _, _ => trivial
+  | v :: vs, g, h => by
+    refine ⟨h [] g List.nil_prefix (by simp) rfl, ?_⟩
+    cases h1 : F g v with
+    | error e => trivial
+    | ok g1 =>
+      apply cache_distinctFold_of_prefixes vs g1
+      intro vs' gk hpre hne hfold
+      apply h (v :: vs') gk (List.cons_prefix_cons.2 ⟨rfl, hpre⟩) (by intro e; cases e; exact hne rfl)
+      simp only [foldE, h1]; exact hfold
+
+/-- histories of single-attach operations: `DistinctAlong` is all that is needed -/
+theorem cache_distinctAlongFine_of_single : ∀ (ops : List Op) (g : G), DistinctAlong g ops →
+    (∀ op, op ∈ ops → cacheSingleAttach op = true) → DistinctAlongFine g ops
+  | [], _, h, _ => h
+  | op :: ops, _, h, hs =>
+    ⟨h.1, cache_distinctFine_single (hs op List.mem_cons_self),
+     cache_distinctAlongFine_of_single ops _ h.2 (fun o ho => hs o (List.mem_cons_of_mem _ ho))⟩
 
 end Gtirb.Forest
